@@ -19,6 +19,7 @@ var htmlQuick = []Mix{
 	{Gen: "mut", Dict: "htmlfull", N: 250000},
 	{Gen: "novel", Dict: "htmlfull", N: 150000},
 	{Gen: "g04", N: 150000},
+	{Gen: "scale", N: 70000}, {Gen: "nulpad"},
 }
 
 var htmlThorough = []Mix{
@@ -29,6 +30,7 @@ var htmlThorough = []Mix{
 	{Gen: "mut", Dict: "htmlfull", N: 4000000},
 	{Gen: "novel", Dict: "htmlfull", N: 2000000},
 	{Gen: "g04", N: 2000000},
+	{Gen: "scale", N: 70000}, {Gen: "scale", N: 100000}, {Gen: "nulpad"},
 }
 
 func htmlPlan(quick, thorough []Mix) func(string, uint64) []core.Unit {
@@ -79,12 +81,12 @@ func c15() *core.Check {
 	quick := []Mix{
 		{Gen: "atoms", Dict: "htmlbytes0", K: 5},
 		{Gen: "atoms", Dict: "htmlfull0", K: 3},
-		{Gen: "f-corpus"}, {Gen: "f-seq", N: 300000}, {Gen: "f-mut", N: 300000}, {Gen: "f-g04", N: 300000}, {Gen: "f-bytetpl"}, {Gen: "f-utf8tpl"}, {Gen: "f-scale", N: 128 << 10}, {Gen: "f-padded"},
+		{Gen: "f-corpus"}, {Gen: "f-seq", N: 300000}, {Gen: "f-mut", N: 300000}, {Gen: "f-g04", N: 300000}, {Gen: "f-bytetpl"}, {Gen: "f-utf8tpl"}, {Gen: "f-scale", N: 128 << 10}, {Gen: "f-padded"}, {Gen: "nulpad"}, {Gen: "huge", Dict: "quick"},
 	}
 	thorough := []Mix{
 		{Gen: "atoms", Dict: "htmlbytes0", K: 6},
 		{Gen: "atoms", Dict: "htmlfull0", K: 4},
-		{Gen: "f-corpus"}, {Gen: "f-seq", N: 5000000}, {Gen: "f-mut", N: 5000000}, {Gen: "f-g04", N: 5000000}, {Gen: "f-bytetpl"}, {Gen: "f-utf8tpl"}, {Gen: "f-scale", N: 1 << 20}, {Gen: "f-scale", N: 100000}, {Gen: "f-padded", N: 1},
+		{Gen: "f-corpus"}, {Gen: "f-seq", N: 5000000}, {Gen: "f-mut", N: 5000000}, {Gen: "f-g04", N: 5000000}, {Gen: "f-bytetpl"}, {Gen: "f-utf8tpl"}, {Gen: "f-scale", N: 1 << 20}, {Gen: "f-scale", N: 100000}, {Gen: "f-padded", N: 1}, {Gen: "nulpad"}, {Gen: "huge", Dict: "thorough"},
 	}
 	plan := func(tier string, seed uint64) []core.Unit {
 		mixes := quick
@@ -98,6 +100,8 @@ func c15() *core.Check {
 				us = append(us, gen.RangeUnits("f-corpus", uint64(len(gen.CorpusHTML())), 16, "")...)
 			case "f-bytetpl":
 				us = append(us, gen.RangeUnits("f-bytetpl", 256, 16, "")...)
+			case "huge":
+				us = append(us, gen.RangeUnits("huge", uint64(len(hugeSizes(m.Dict))*3), 1, m.Dict)...)
 			case "f-utf8tpl":
 				us = append(us, gen.RangeUnits("f-utf8tpl", uint64(len(utf8Chars())), 96, "")...)
 			case "f-scale":
@@ -120,7 +124,7 @@ func c15() *core.Check {
 	}
 	return &core.Check{
 		ID: "C15",
-		Rule: "strings over bytes minus {'<','='}: bounded-exhaustive sequences over the HTML alphabet minus atoms containing the two bytes; corpus truncations, random sequences, mutations, XSS-grammar vectors, byte / UTF-8 character templates, the length-parameterised families at 128 KiB (thorough 1 MiB) and corpus inputs padded to 255-65537 bytes, with every '<'/'=' deleted or replaced. Oracle: IsXSS = false (the firing context is reported). " +
+		Rule: "strings over bytes minus {'<','='}: bounded-exhaustive sequences over the HTML alphabet minus atoms containing the two bytes; corpus truncations, random sequences, mutations, XSS-grammar vectors, byte / UTF-8 character templates, the length-parameterised families at 128 KiB (thorough 1 MiB) corpus inputs padded to 255-65537 bytes, NUL-padded words and benign bodies of 128 KiB-16 MiB (thorough 64 MiB), with every '<'/'=' deleted or replaced. Oracle: IsXSS = false (the firing context is reported). " +
 			"Non-trivial = the tokenizer produced a non-text token in some context (attribute machinery exercised); distinct by input.",
 		Plan: plan,
 		Gen: func(w *core.Worker, u core.Unit, emit func(core.Case)) {
@@ -144,6 +148,13 @@ func c15() *core.Check {
 				genMix(htmlDomain, w, u2, f)
 			case "f-g04":
 				genC04(w, u, func(s, meta string) { f(core.Case{In: s}) })
+			case "huge":
+				sz := hugeSizes(u.Arg)
+				for i := u.Lo; i < u.Hi; i++ {
+					n := sz[int(i)/3]
+					unit := []string{"lorem ipsum dolor sit amet ", "on x' y\" z` > / ", "a"}[int(i)%3]
+					emit(core.Case{In: gen.Scale("", unit, "", n), Desc: gen.ScaleDesc("", unit, "", n)})
+				}
 			case "f-scale", "f-padded":
 				// long inputs: a token budget or a length-dependent path
 				u2 := u
@@ -171,7 +182,9 @@ func c15() *core.Check {
 				return
 			}
 			w.Eval(1)
-			if li.IsXSS(s) {
+			// asked twice: the second answer comes right after this very input was
+			// the last one this goroutine had scanned
+			if li.IsXSS(s) || len(s) >= 32 && li.IsXSS(s) {
 				fired := ""
 				for i, ctx := range h5Ctxs {
 					if li.VerifXSSCtx(s, ctx) {
@@ -290,7 +303,7 @@ func c17() *core.Check {
 		},
 		One: func(w *core.Worker, c core.Case) {
 			s := c.In
-			if len(s) > 1<<16 {
+			if len(s) > 1<<17 {
 				return
 			}
 			w.Eval(1)
@@ -409,7 +422,7 @@ func c13() *core.Check {
 		Gen:  htmlGen,
 		One: func(w *core.Worker, c core.Case) {
 			s := c.In
-			if len(s) > 1<<16 {
+			if len(s) > 1<<17 {
 				return
 			}
 			w.Eval(1)
